@@ -504,10 +504,27 @@ def run_bfs(item, col):
                             col.violation(sig, f"layout {layout} init mask {st.init} history {st.hist}: {msg}",
                                           {"kind": "bfs", "layout": layout, "init": st.init, "history": st.hist, "op": ["metadata"]})
                     meta_before = st.meta
-                out, extra, exc = guarded(op, copy.deepcopy(st.screen), tmp)
+                arg = copy.deepcopy(st.screen)
+                out, extra, exc = guarded(op, arg, tmp)
                 col.evaluations += 1
                 col.transitions += 1
                 col.count("op:" + op[0])
+                # Branching histories: the screen the operation was applied to may be used again
+                # (s1 = reveal(s0, [1]); s2 = reveal(s0, [2])).  If the operation left its argument
+                # untouched the second branch is the transition explored from st anyway; if it changed
+                # it, run the second branch on the changed object and judge it against st.
+                if op[0] in ("reveal", "mask", "unmask") and canon(arg) != canon(st.screen):
+                    col.count("operations that changed their argument")
+                    for op2 in ops:
+                        if op2[0] != "reveal" or len(op2[1]) != 1:
+                            continue
+                        out2, extra2, exc2 = guarded(op2, arg, tmp)
+                        col.evaluations += 1
+                        bad2, _info2 = judge(op2, st.screen, out2, extra2, exc2, None)
+                        for sig, msg in bad2:
+                            col.violation(sig + "|after-sibling-operation",
+                                          f"layout {layout}, initial mask bits {st.init}, history {st.hist}: after {op} was applied to the same screen object, {op2} on that object: {msg}",
+                                          dict(case, op=op, then=op2))
                 if extra:
                     col.evaluations += 1
                     col.count("cli:extract_screen_metadata")
@@ -753,6 +770,17 @@ def replay(case, col):
             copy.deepcopy(screen).save_h5(p)
             meta_before = cli_metadata(p, tmp)
         print("plate ids:", [int(x) for x in screen.plate_ids], "observations:", [float(x) for x in screen.observations])
+        if case.get("then") is not None:
+            arg = copy.deepcopy(screen)
+            guarded(op, arg, tmp)
+            op2 = case["then"]
+            out2, extra2, exc2 = guarded(op2, arg, tmp)
+            print("sibling operation", op, "then", op2, "on the same object ->",
+                  "raised " + short_exc(exc2) if exc2 is not None else [bool(x) for x in out2.observation_mask])
+            bad2, _ = judge(op2, screen, out2, extra2, exc2, None)
+            for sig, msg in bad2:
+                col.violation(sig + "|after-sibling-operation", msg, case)
+            return
         out, extra, exc = guarded(op, copy.deepcopy(screen), tmp)
         if exc is not None:
             print("operation", op, "raised:", short_exc(exc))
